@@ -6,17 +6,19 @@
           (VTK-XML reader on such files), `Fc.W.csvWrite / csvRead` (FcModel/{VtuWriter,Csv}.lean)
   Spec:   `Fc.W.Spec.normalise` (FcModel/Spec/C13.lean)
 
-  Full statement aimed at (DESIGN §7):   hyp F → (writeVtu id F).bind readVtu = normalise F.
-  Proved here: every link of that chain that depends on the data — the element encoding for every payload
-  length and dtype, the header arithmetic, the type tables, the cell layout per type, the cell-data split,
-  point padding, the CSV token layer.  NOT proved: the composition of these links through the record
-  plumbing of `readVtu` (lookup of the elements, the order of `np.unique`); it is re-checked at run time on
-  every generated case (`back = spec` in the driver reply, compared by harness/corr/c13.py).
+  Full statement (DESIGN §7), proved as `C13_vtu_roundtrip` / `C13_vtu_roundtrip_bind`:
+      hyp F → sizeOk F → (writeVtu id F).bind readVtu = normalise F   (and both sides are defined).
+  The other theorems are the links of that chain, each at full generality of its own hypotheses: the element
+  encoding for every payload length and dtype, the header arithmetic, the type tables, the cell layout per type,
+  the cell-data split, the `np.unique` order, point padding; and the CSV token layer.
+  The XML layer is not modelled (a file is the record of its data-array elements; the harness compares files
+  element by element); arrays are logical row-major item lists (numpy's `flatten()` is trusted, see NOTES_C13).
 -/
 import FcProofs.Lemmas.BytesW
 import FcProofs.Lemmas.FileW
 import FcProofs.Lemmas.CellDataW
 import FcProofs.Lemmas.CsvW
+import FcProofs.Lemmas.C13Roundtrip
 import FcModel.Spec.C13
 namespace Fc
 open Fc.W
@@ -64,17 +66,17 @@ theorem C13_all_dtypes_registered :
       ∃ v, dtypeToVtk d = some v ∧ vtkToDtype v = some d :=
   all_dtypes_registered
 
-/-- **C13 (every array of the written file, partial composition).**  Whenever the writer produces a file for
-    field data `F` (any number of point fields of any registered dtypes and shapes, any points, at least one cell),
-    then in that file
+/-- **C13 (every array of a written file).**  Whenever the writer produces a file for field data `F`
+    (no assumption on `F` beyond the well-formedness of the single arrays: any number of point fields of any
+    registered dtypes and shapes, any points, at least one cell), then in that file
     * the point-data elements carry, in order, the names, component counts and — read back — the dtypes and exact
       bit patterns of the point fields;
     * the `Coordinates` element reads back to the padded points;
     * `connectivity`, `offsets`, `types` read back to the flat corner list, the running sums of the corner counts
       and the type indices of the cell sequence — the arrays `C13_cells_roundtrip` starts from.
-    Missing for the full `readVtu (writeVtu F) = normalise F`: the cell-data elements (the per-name gathering of
-    `cellFieldValues`) and the assembly of the per-type results in `np.unique` order. -/
-theorem C13_vtu_arrays_roundtrip_partial (F : WFields) (file : VtuFile) (hw : writeVtu id F = some file)
+    (Phase 1 called this `…_partial`; the full composition is `C13_vtu_roundtrip` below — this statement is kept
+    because it does not need `hyp`.) -/
+theorem C13_vtu_arrays_roundtrip (F : WFields) (file : VtuFile) (hw : writeVtu id F = some file)
     (hpf : ∀ f ∈ F.pf, ArrOk f.2) (hpt : ArrOk (pointArray id F)) (hcs : allCells F.cells ≠ [])
     (hconn : ArrOk ⟨F.conntype, ((allCells F.cells).flatMap (·.2)).length, [], (allCells F.cells).flatMap (·.2)⟩)
     (hoffs : ArrOk ⟨"int64", (runningSums 0 ((allCells F.cells).map (·.2.length))).length, [],
@@ -112,8 +114,8 @@ theorem C13_vtu_arrays_roundtrip_partial (F : WFields) (file : VtuFile) (hw : wr
 /-- **C13 (cell types preserved).** Every cell type of `_CELL_TYPE_INDEX_TO_STR` (regenerated from the
     source) is written as an index that the reader maps back to the same type. -/
 theorem C13_celltypes_preserved :
-    ∀ p ∈ Fc.Gen.wCellTypeIndexToStr, cellTypeIndex p.2 = some p.1 ∧ cellTypeName p.1 = some p.2 := by
-  decide
+    ∀ p ∈ Fc.Gen.wCellTypeIndexToStr, cellTypeIndex p.2 = some p.1 ∧ cellTypeName p.1 = some p.2 :=
+  celltypes_preserved
 
 /-- **C13 (cells per type).** Let the mesh consist of blocks with pairwise distinct types, the block of type
     `t` having rows of `k` corners each (and at least one).  From the `connectivity`, `offsets`, `types` arrays the
@@ -146,6 +148,43 @@ theorem C13_points_padded (p : List Nat) (h : p.length ≤ 3) :
   | [a], _ => exact ⟨rfl, rfl, by intro i h1 h2; match i, h1, h2 with | 1, _, _ => rfl | 2, _, _ => rfl⟩
   | [a, b], _ => exact ⟨rfl, rfl, by intro i h1 h2; match i, h1, h2 with | 2, _, _ => rfl⟩
   | [a, b, c], _ => exact ⟨rfl, rfl, by intro i h1 h2; simp at h1; omega⟩
+
+/-- **C13 (`np.unique` order).** The reader's list of cell types (`np.unique(types)`) is the strictly ascending
+    list of the type ids that occur: any strictly ascending list with the same members is equal to it. -/
+theorem C13_unique_order (types L : List Nat) (hs : L.Pairwise (· < ·)) (hm : ∀ t, t ∈ L ↔ t ∈ types) :
+    uniqueTypes types = L :=
+  uniqueTypes_eq types L hs hm
+
+/-- **C13 (what must be read back: the cells).** Under `hyp`, the cell blocks of `normalise F` are exactly the
+    non-empty blocks of `F` (same names, same rows in mesh order), listed in strictly ascending order of their VTK
+    type ids — a statement about the spec that does not mention how it sorts. -/
+theorem C13_normalise_cells (F : WFields) (h : Spec.hyp F = true) (R : RFields) (hR : Spec.normalise F = some R) :
+    (∀ b, b ∈ R.cells ↔ (b ∈ F.cells ∧ b.2 ≠ [])) ∧
+    (R.cells.map fun b => (cellTypeIndex b.1).getD 0).Pairwise (· < ·) :=
+  normalise_cells F (facts_of_hyp F h) R hR
+
+/-- **C13 (file-level round trip, full statement).**  For every mesh-fields value `F` inside the hypothesis
+    (`Spec.hyp`: 1–3 coordinate columns, float64 points or 3-d float32 points, any number of blocks of pairwise
+    distinct known cell types — empty blocks allowed, a mesh without cells allowed —, one corner count per block,
+    connectivity of any registered integer dtype, any number of point fields and of cell fields of all ten numeric
+    dtypes with arbitrary tails (scalar / vector / tensor …), every cell-field name present exactly once on every
+    block with one dtype and tail; `Spec.sizeOk`: no array with 2^61 or more scalars)
+    * the writer produces a file,
+    * `normalise F` is defined, and
+    * reading the written file back yields exactly `normalise F`: the padded points and their dtype, per cell type
+      (ascending VTK id = `np.unique` order) the corner rows in mesh order, every point field with name / dtype /
+      component count / exact bit patterns in order, every cell field with name / dtype / component count and, per
+      cell type, exactly the bits written for that type's cells. -/
+theorem C13_vtu_roundtrip (F : WFields) (h : Spec.hyp F = true) (hs : Spec.sizeOk F = true) :
+    ∃ file R, writeVtu id F = some file ∧ Spec.normalise F = some R ∧ readVtu file = some R :=
+  vtu_roundtrip F h hs
+
+/-- the same in the form of DESIGN §7 -/
+theorem C13_vtu_roundtrip_bind (F : WFields) (h : Spec.hyp F = true) (hs : Spec.sizeOk F = true) :
+    (writeVtu id F).bind readVtu = Spec.normalise F ∧ (Spec.normalise F).isSome = true := by
+  obtain ⟨file, R, hw, hn, hr⟩ := vtu_roundtrip F h hs
+  rw [hw, hn]
+  exact ⟨hr, rfl⟩
 
 /-- **C13 (CSV, token level).** For every table with at least one column whose names and cell tokens are
     non-empty and free of the delimiter and the newline: the text written by `_write_table` is split by the
